@@ -167,7 +167,7 @@ def gen(seed: int, i: int, tier: str) -> dict:
     elif kind == "empty_file":
         content = rng.choice([b"", b"", b" ", b"\n"])
     registry = {}
-    if kind == "missing_file" and rng.random() < 0.5:
+    if kind == "missing_file" and rng.random() < 0.5 or kind != "missing_file" and rng.random() < 0.3:
         registry = {str(k): v for k, v in rand_snap(rng).items()}
         for v in registry.values():
             v["children"] = {str(c): {"type": ch["type"], "desc": ch["desc"],
@@ -221,8 +221,9 @@ def run(scn) -> RunResult:
                     if snapshot(nodes) != before:
                         res.violate(PROP, "missing-file-created", "registry-changed", "")
             if kind == "empty_file" and content == b"":
-                if outcome != "ok" or nodes:
-                    res.violate(PROP, "empty-file-empty-registry", f"{outcome}:{len(nodes)}nodes", repr(val)[:200])
+                if outcome != "ok" or snapshot(nodes) != before:
+                    res.violate(PROP, "empty-file-empty-registry", f"{outcome}:{'changed' if outcome == 'ok' else 'raised'}",
+                                f"{val!r} registry before {sorted(before)} after {sorted(nodes)}"[:300])
         finally:
             res.digest = pw.elog.digest()
             res.vt = pw.loop.time()
